@@ -5,7 +5,7 @@
 
 namespace c05 {
 
-enum St : uint8_t { S_SPAWN, S_PAUSE, S_RESOLVE_DISCARD, S_RESOLVE_AWAIT, S_RESOLVE_KEEP, S_AWAIT, S_LOCK, S_UNLOCK_DISCARD, S_UNLOCK_AWAIT, S_PUSH, S_POP, S_START_NESTED, S_NESTED_CALL, S_COUNT };
+enum St : uint8_t { S_SPAWN, S_PAUSE, S_RESOLVE_DISCARD, S_RESOLVE_AWAIT, S_RESOLVE_KEEP, S_AWAIT, S_LOCK, S_UNLOCK_DISCARD, S_UNLOCK_AWAIT, S_PUSH, S_POP, S_START_NESTED, S_NESTED_CALL, S_PARK, S_UNPARK, S_COUNT };
 struct Step { uint8_t kind, arg; };
 constexpr int NF = 4, MAXC = 8;
 struct Prog { std::vector<std::vector<Step>> co; std::vector<Step> main_ops; };
@@ -31,7 +31,8 @@ inline Prog decode(hz::Reader &r) {
 }
 static const char *sn[] = {"spawn+detach", "pause", "resolve(discard)", "co_await resolve", "resolve(kept, released later)", "await future", "lock", "unlock(discard)", "co_await unlock", "push", "pop",
                            "start() a child that runs nested and finishes without suspending (or suspends on a private future and is released by the parent)",
-                           "coro_queue::install_queue_and_call (explicit nested activation: flushes the queue before it returns)"};
+                           "coro_queue::install_queue_and_call (explicit nested activation: flushes the queue before it returns)",
+                           "park (suspend on a hand-written awaiter that keeps the handle)", "coro_queue::resume(handle of the longest parked coroutine)"};
 inline std::string describe(const Prog &p) {
     hz::Desc d; d << (unsigned)p.co.size() << " coroutines;";
     for (size_t i = 0; i < p.co.size(); i++) { d << " C" << (unsigned)i << ":"; for (auto &s : p.co[i]) { d << " " << sn[s.kind]; if (s.kind >= S_RESOLVE_DISCARD && s.kind <= S_AWAIT) d << "#" << (unsigned)s.arg; } d << ";"; }
@@ -85,6 +86,7 @@ struct World {
     cocls::mutex mx; cocls::queue<int> q;
     // children started nested that suspend on a private gate: gate and result future outlive the parent's frame
     std::vector<std::unique_ptr<cocls::future<int>>> nested_gates; std::vector<std::unique_ptr<cocls::future<void>>> nested_results;
+    std::vector<std::pair<int, std::coroutine_handle<>>> parked;      // coroutines suspended on the hand-written awaiter, oldest first
     int resumes_while_running = 0;
     bool running_flag[MAXC] = {};
     int step_events = 0;
@@ -118,6 +120,13 @@ struct World {
 };
 
 inline cocls::async<void> script(World *w, int id);
+// a user-written awaiter: keeps the handle, somebody hands it to coro_queue::resume() later (documented: "resume in queue")
+struct ParkAw {
+    World *w; int id;
+    bool await_ready() const noexcept { return false; }
+    void await_suspend(std::coroutine_handle<> h) { w->parked.push_back({id, h}); }
+    void await_resume() const noexcept {}
+};
 
 // child started with start() from inside a running coroutine: documented to run immediately, nested, like a
 // function call.  It performs only non-suspending steps (it may ready other coroutines) and finishes: control
@@ -191,6 +200,13 @@ inline cocls::async<void> script(World *w, int id) {
                 co_await own.release();
             } break;
             case S_PUSH: m.add_batch(w->model_push()); w->q.push(5); break;
+            case S_PARK: w->model_suspend(); co_await ParkAw{w, id}; break;
+            case S_UNPARK: if (!w->parked.empty()) {
+                // a handle passed to coro_queue::resume() while a coroutine is running is QUEUED (also when the queue is empty)
+                auto pk = w->parked.front(); w->parked.erase(w->parked.begin());
+                m.add_batch({pk.first}); cocls::coro_queue::resume(pk.second);
+                w->on_run(id, "after coro_queue::resume() returned");
+            } break;
             case S_START_NESTED: {
                 int cid = 100 + id * 8 + (int)i;
                 m.running = cid;
@@ -254,6 +270,7 @@ inline void run(hz::Reader &r) {
             bool did = false;
             for (int j = 0; j < NF; j++) if (!m.fut_resolved[j]) { w->main_release(w->model_resolve(j)); w->prom[j](1); w->check_drained("resolve"); did = true; }
             if (!m.q_waiters.empty()) { w->main_release(w->model_push()); w->q.push(5); w->check_drained("push"); did = true; }
+            if (!w->parked.empty()) { auto pk = w->parked.front(); w->parked.erase(w->parked.begin()); w->main_release({pk.first}); cocls::coro_queue::resume(pk.second); w->check_drained("coro_queue::resume from ordinary code"); did = true; }
             HZ_CHECK(did || m.finished == (int)p.co.size(), "harness: coroutines blocked with nothing left to satisfy (finished %d of %zu)", m.finished, p.co.size());
         }
         HZ_CHECK(m.finished == (int)p.co.size(), "%d of %zu coroutines finished", m.finished, p.co.size());
@@ -274,7 +291,7 @@ namespace hz {
 static const Info I = {
     "C05", 1, 130, 100000, false, true,
     "stateful byte-decoded programs (rapidcheck), single thread: 1..8 scripted coroutines with up to 6 steps each over {spawn+detach child, pause, resolve promise j with the suspend point discarded / co_awaited / kept and released later, "
-    "await future j, mutex lock, unlock discarded / co_awaited, queue push, queue pop, start() of a child that runs nested (finishing at once, or suspending on a private future: control returns to the parent, the child continues from the queue), explicit nested activation}, driven by 1..4 operations from ordinary code (spawn, resolve, push) and then settled until every coroutine finished. Oracle = online comparison with a reference "
+    "await future j, mutex lock, unlock discarded / co_awaited, queue push, queue pop, start() of a child that runs nested (finishing at once, or suspending on a private future: control returns to the parent, the child continues from the queue), explicit nested activation, parking on a hand-written awaiter and coro_queue::resume() of a parked handle}, driven by 1..4 operations from ordinary code (spawn, resolve, push) and then settled until every coroutine finished. Oracle = online comparison with a reference "
     "model of the ready queue (FIFO of batches; the order inside the batch readied by ONE operation is not asserted): a coroutine may only gain control when the model says the running one suspended/finished and it is in the front batch "
     "(run-to-suspension, FIFO, pause = strict round-robin), co_await on a suspend point transfers to one of its coroutines, queues the others and re-queues the awaiting one last, nobody runs between resolving and releasing a kept suspend point, "
     "and every return to ordinary code finds the model queue empty and coro_queue inactive (full drain); allocation balance 0. Non-trivial = >=3 coroutines and >=1 coroutine readied through a discarded suspend point; distinct = hash(decoded program).",
